@@ -57,6 +57,8 @@ def observations(G, ex, st, ctx, offsets):
         ex.exits = []
         r = ex.call(st.fork(), '@ti_mmio_read', [ctx['impl'], a])
         obs['mmio[%#05x]' % a] = r[1]
+    for n_, (rid, off, sz) in c12.field_locations(G).items():
+        obs['field.' + n_] = ex.load(st, Ptr(rid, off), sz)
     obs['dsp memory'] = st.mem[ctx['mem']].arr
     return obs
 
@@ -102,7 +104,7 @@ def job_garbage(stage, lo, hi, tier, seed):
         groups[name] = (t, gv)
     clean = [n for n in obs if n not in groups]
     # independent by construction: no never-written byte occurs in the observation term
-    key = {'regs': 'processor registers', 'inte': 'interpreter latches', 'mmio': 'MMIO reads', 'dsp ': 'DSP memory'}
+    key = {'regs': 'processor registers', 'inte': 'interpreter latches', 'mmio': 'MMIO reads', 'dsp ': 'DSP memory', 'fiel': 'peripheral data fields'}
     for k_, label in key.items():
         names = [n for n in clean if n[:4] == k_]
         if names:
@@ -165,7 +167,7 @@ def job_reset(lo, hi, tier, seed):
             same.append(n)
         else:
             differ.append(n)
-    key = {'regs': 'processor registers', 'inte': 'interpreter latches', 'mmio': 'MMIO reads', 'dsp ': 'DSP memory'}
+    key = {'regs': 'processor registers', 'inte': 'interpreter latches', 'mmio': 'MMIO reads', 'dsp ': 'DSP memory', 'fiel': 'peripheral data fields'}
     for k_, label in key.items():
         names_ = [n for n in same if n[:4] == k_]
         if names_:
@@ -229,7 +231,7 @@ def run(tier, seed):
     ck.funcs.update(['Teakra::Teakra::Impl::Impl and every member constructor (CoreTiming, SharedMemory, MemoryInterfaceUnit, ICU, Apbp, Timer, Ahbm, Dma, Btdmp, MMIORegion, MemoryInterface, Processor, RegisterState, Interpreter)',
                      'Teakra::Teakra::Impl::Reset and every component Reset', 'MMIORegion::Read (all 0x800 cells)'])
     ck.assumptions += ['operator new / the Impl storage return memory whose bytes are unconstrained symbolic values until written (heap fill patterns = symbolic variables)',
-                       'observations: every RegisterState field, the interpreter latches and idle flag, every MMIO read (0x800 offsets, each on a forked state), the 0x80000-byte DSP memory',
+                       'observations: every RegisterState field, the interrupt latches, every MMIO read (0x800 offsets, each on a forked state), every data field of the timers / MIU / ICU / DMA / AHBM / BTDMP / APBP objects (hidden state such as a timer counter is observed later through Run), the 0x80000-byte DSP memory',
                        'the 65536-entry decoder table is a pure function of decoder.h (C02) and is not part of the state; callbacks are installed identically in both runs',
                        'Reset-equals-fresh: pre-state = constructed graph with all peripheral data fields, cell backing words, processor registers, interpreter latches and memory replaced by fresh variables']
     ck.bounds += ['one constructor run, one Reset; all 0x800 MMIO offsets; no value bound']
